@@ -92,6 +92,11 @@ Fs::Ufs::UFSStoreState::closeCompleted()
            ", fileno " << asHex(swap_filen).minDigits(8) <<
            " status " << theFile->error());
 
+    // doCloseCallback() may release the last references to theFile and,
+    // through its ioRequestor, to us (e.g., when write() gives up on an entry
+    // that outgrew the cache_dir max-size). Stay alive until we are done here.
+    const StoreIOState::Pointer self(this);
+
     if (theFile->error()) {
         debugs(79,3, "theFile->error() ret " << theFile->error());
         doCloseCallback(DISK_ERROR);
